@@ -127,7 +127,7 @@ theorem getElem?_storeAt (a : List UInt8) (off : Nat) (src : List UInt8) (i : Na
 macro "blocks_ext" "[" ts:Lean.Parser.Tactic.simpLemma,* "]" : tactic =>
   `(tactic| (apply List.ext_getElem?; intro i
              simp only [zeroAt, getElem?_storeAt, storeAt_length, List.length_replicate, List.getElem?_append, List.getElem?_replicate,
-               List.take_length, List.length_append, List.length_take, Nat.sub_zero, Nat.zero_add, Nat.min_self, $ts,*]
+               List.take_length, List.length_append, List.length_take, Nat.sub_zero, Nat.zero_add, Nat.min_self, Nat.reduceSub, Nat.reduceAdd, $ts,*]
              repeat' split
              all_goals first | rfl | omega | exact List.getElem?_eq_none (by omega) | exact Eq.symm (List.getElem?_eq_none (by omega)) | (congr 1; omega)))
 
